@@ -8,6 +8,7 @@ import io
 import signal
 import sys
 import types
+import warnings
 
 
 class Timeout(BaseException):
@@ -72,8 +73,10 @@ def observe(src, timeout=2.0, hide=()):
             signal.setitimer(signal.ITIMER_REAL, timeout * 15)
             sys.stdout = buf
             try:
-                code = compile(src, '<case>', 'exec', dont_inherit=True)
-                exec(code, g)
+                with warnings.catch_warnings():
+                    warnings.simplefilter('ignore')
+                    code = compile(src, '<case>', 'exec', dont_inherit=True)
+                    exec(code, g)
             except Timeout:
                 return None
             except SystemExit as e:
